@@ -74,7 +74,13 @@ Proof.
 Qed.
 Lemma frame_nstep c n e : frame n (fst (nstep c n e)).
 Proof.
-  destruct e as [d via acts|w o|w tid acts|i acts]; simpl.
+  destruct e as [d via acts|w o|w tid acts|i acts|routed acts]; simpl.
+  5:{ destruct routed.
+      - pose proof (frame_tm_op n WOwn (RegisterAnon 9 KCoro)) as H1.
+        destruct (tm_op n WOwn (RegisterAnon 9 KCoro)) as [n1 os]. destruct (started_ok os); [|exact H1].
+        pose proof (frame_perform c acts n1) as H2. destruct (perform c n1 acts) as [n2 o2].
+        simpl in *. eapply frame_trans; eassumption.
+      - pose proof (frame_perform c acts n) as H. destruct (perform c n acts). exact H. }
   - destruct (filter (is_mine n) _); [apply frame_refl|].
     pose proof (frame_perform c acts n) as H. destruct (perform c n acts). exact H.
   - apply frame_tm_op.
@@ -139,7 +145,12 @@ Section Stable.
 
   Lemma all3_nstep c n e : all3 n -> all3 (fst (nstep c n e)).
   Proof.
-    intros H. destruct e as [d via acts|w o|w tid acts|i acts]; simpl.
+    intros H. destruct e as [d via acts|w o|w tid acts|i acts|routed acts]; simpl.
+    5:{ destruct routed.
+        - pose proof (all3_tm_op n WOwn (RegisterAnon 9 KCoro) H) as H1.
+          destruct (tm_op n WOwn (RegisterAnon 9 KCoro)) as [n1 os]. destruct (started_ok os); [|exact H1].
+          pose proof (all3_perform c acts n1 H1) as H2. destruct (perform c n1 acts) as [n2 o2]. exact H2.
+        - pose proof (all3_perform c acts n H) as H1. destruct (perform c n acts). exact H1. }
     - destruct (filter (is_mine n) _); [assumption|].
       pose proof (all3_perform c acts n H) as H1. destruct (perform c n acts). exact H1.
     - apply all3_tm_op. assumption.
@@ -230,10 +241,23 @@ Proof.
 Qed.
 
 (* THE composed statement, one event at a time *)
+Lemma quiet_not_started w os : Forall quiet_out os -> started_ok (map (NTask w) os) = false.
+Proof.
+  intros H. destruct os as [|o [|o2 r]]; simpl; try reflexivity.
+  - inversion H; subst. destruct o as [tid|rr|old b rr]; simpl in *; try reflexivity. subst rr. reflexivity.
+  - destruct o as [tid|rr|old b rr]; try reflexivity. destruct rr; reflexivity.
+Qed.
+
 Lemma unloaded_nstep c n e :
+  event_routed e = true ->
   unloaded n -> unloaded (fst (nstep c n e)) /\ Forall silent_out (snd (nstep c n e)).
 Proof.
-  intros U. destruct e as [d via acts|w o|w tid acts|i acts]; simpl.
+  intros Hr U. destruct e as [d via acts|w o|w tid acts|i acts|routed acts]; simpl.
+  5:{ simpl in Hr. subst routed. destruct (U_tm_op n WOwn (RegisterAnon 9 KCoro) U) as [U1 O1].
+      assert (Hs : started_ok (snd (tm_op n WOwn (RegisterAnon 9 KCoro))) = false).
+      { unfold tm_op. simpl. pose proof (quiet_out_tstep (n_tm n) (RegisterAnon 9 KCoro) (u_own n U)) as Q.
+        destruct (tstep (n_tm n) (RegisterAnon 9 KCoro)) as [x' os]. simpl. apply quiet_not_started. exact Q. }
+      destruct (tm_op n WOwn (RegisterAnon 9 KCoro)) as [n1 os]. simpl in *. rewrite Hs. split; assumption. }
   - rewrite (not_mine_called n _ (u_self n U) (u_crypto n U)). split; [assumption|constructor].
   - apply U_tm_op. assumption.
   - destruct (get_tm n w) as [x|] eqn:Eg; [|split; [assumption|constructor]].
@@ -290,15 +314,18 @@ Proof.
 Qed.
 
 Lemma unloaded_istep c n i :
+  item_routed i = true ->
   unloaded n -> unloaded (fst (istep c n i)) /\ Forall silent_out (snd (istep c n i)).
-Proof. destruct i; [apply unloaded_ustep|apply unloaded_nstep]. Qed.
+Proof. destruct i; simpl; intros H; [apply unloaded_ustep|apply unloaded_nstep; exact H]. Qed.
 
 Lemma unloaded_irun c l : forall n,
+  Forall (fun i => item_routed i = true) l ->
   unloaded n -> unloaded (fst (irun c n l)) /\ Forall silent_out (snd (irun c n l)).
 Proof.
-  induction l as [|i r IH]; intros n U; simpl; [split; [assumption|constructor]|].
-  destruct (unloaded_istep c n i U) as [U1 O1]. destruct (istep c n i) as [n1 o1].
-  destruct (IH n1 U1) as [U2 O2]. destruct (irun c n1 r) as [n2 o2]. simpl in *.
+  induction l as [|i r IH]; intros n Hr U; simpl; [split; [assumption|constructor]|].
+  inversion Hr; subst.
+  destruct (unloaded_istep c n i H1 U) as [U1 O1]. destruct (istep c n i) as [n1 o1].
+  destruct (IH n1 H2 U1) as [U2 O2]. destruct (irun c n1 r) as [n2 o2]. simpl in *.
   split; [assumption|apply Forall_app; auto].
 Qed.
 
@@ -408,7 +435,12 @@ Lemma wf_nstep c n e : wf c n -> wf c (fst (nstep c n e)).
 Proof.
   intros W. destruct (frame_nstep c n e) as [E1 [E2 E3]].
   apply (wf_frame_socks c n); auto.
-  - intros H. destruct e as [d via acts|w o|w tid acts|i acts]; simpl.
+  - intros H. destruct e as [d via acts|w o|w tid acts|i acts|routed acts]; simpl.
+    5:{ destruct routed.
+        - pose proof (cache_none_tm_op n WOwn (RegisterAnon 9 KCoro) H) as H1.
+          destruct (tm_op n WOwn (RegisterAnon 9 KCoro)) as [n1 os]. destruct (started_ok os); [|exact H1].
+          pose proof (cache_none_perform c acts n1 H1) as H2. destruct (perform c n1 acts). exact H2.
+        - pose proof (cache_none_perform c acts n H) as H1. destruct (perform c n acts). exact H1. }
     + destruct (filter (is_mine n) _); [assumption|].
       pose proof (cache_none_perform c acts n H) as H1. destruct (perform c n acts). exact H1.
     + apply cache_none_tm_op. assumption.
@@ -418,7 +450,12 @@ Proof.
     + destruct (nth_error (n_socks n) i) as [s|]; [|assumption]. destruct (s_open s); [|assumption].
       pose proof (cache_none_perform c acts n H) as H1. destruct (perform c n acts). exact H1.
   - intros Hc. pose proof (wf_socks c n W Hc) as H.
-    destruct e as [d via acts|w o|w tid acts|i acts]; simpl.
+    destruct e as [d via acts|w o|w tid acts|i acts|routed acts]; simpl.
+    5:{ destruct routed.
+        - pose proof (socks_nil_tm_op n WOwn (RegisterAnon 9 KCoro) H) as H1.
+          destruct (tm_op n WOwn (RegisterAnon 9 KCoro)) as [n1 os]. destruct (started_ok os); [|exact H1].
+          pose proof (socks_nil_perform c acts Hc n1 H1) as H2. destruct (perform c n1 acts). exact H2.
+        - pose proof (socks_nil_perform c acts Hc n H) as H1. destruct (perform c n acts). exact H1. }
     + destruct (filter (is_mine n) _); [assumption|].
       pose proof (socks_nil_perform c acts Hc n H) as H1. destruct (perform c n acts). exact H1.
     + apply socks_nil_tm_op. assumption.
@@ -428,9 +465,9 @@ Proof.
     + rewrite H. destruct i; simpl; assumption.
 Qed.
 
-Lemma partial_nstep c fl n e : fl_ok fl -> partial c fl n -> partial c fl (fst (nstep c n e)).
+Lemma partial_nstep c fl n e : event_routed e = true -> fl_ok fl -> partial c fl n -> partial c fl (fst (nstep c n e)).
 Proof.
-  intros Ok P.
+  intros Hr Ok P.
   assert (T' : all3 (tmP (f_own fl)) (tmP (f_cache fl)) tmok (fst (nstep c n e))).
   { apply all3_nstep; try (intros; apply tmP_tstep; assumption); try (intros; apply tmok_tstep; assumption).
     - apply tmok_fresh.
@@ -438,7 +475,7 @@ Proof.
   pose proof (wf_nstep c n e (p_wf c fl n P)) as W'.
   destruct (f_socks fl) eqn:Hf.
   - pose proof (partial_unloaded c fl n P Ok Hf) as U.
-    destruct (unloaded_nstep c n e U) as [U' _].
+    destruct (unloaded_nstep c n e Hr U) as [U' _].
     apply (unloaded_tmok_partial c fl n P U); assumption.
   - destruct (frame_nstep c n e) as [E1 [E2 E3]]. constructor; auto.
     + intros H. pose proof (p_self c fl n P H) as A. unfold A_self in *. rewrite E1, E2. exact A.
@@ -581,14 +618,15 @@ Lemma steps_of_cons_event e r : steps_of (IEvent e :: r) = steps_of r.
 Proof. reflexivity. Qed.
 
 Lemma partial_irun c l : forall fl n,
+  Forall (fun i => item_routed i = true) l ->
   fl_ok fl -> partial c fl n -> partial c (fold_left flag_step (steps_of l) fl) (fst (irun c n l)).
 Proof.
-  induction l as [|i r IH]; intros fl n Ok P; simpl; [assumption|].
-  destruct i as [u|e].
+  induction l as [|i r IH]; intros fl n Hr Ok P; simpl; [assumption|].
+  inversion Hr; subst. destruct i as [u|e].
   - pose proof (partial_ustep c fl n u Ok P) as P1. simpl. destruct (ustep_apply c n u) as [n1 o1].
-    pose proof (IH _ n1 (fl_ok_step fl u Ok) P1) as P2. destruct (irun c n1 r) as [n2 o2]. exact P2.
-  - pose proof (partial_nstep c fl n e Ok P) as P1. simpl. destruct (nstep c n e) as [n1 o1].
-    pose proof (IH _ n1 Ok P1) as P2. destruct (irun c n1 r) as [n2 o2]. exact P2.
+    pose proof (IH _ n1 H2 (fl_ok_step fl u Ok) P1) as P2. destruct (irun c n1 r) as [n2 o2]. exact P2.
+  - pose proof (partial_nstep c fl n e H1 Ok P) as P1. simpl. destruct (nstep c n e) as [n1 o1].
+    pose proof (IH _ n1 H2 Ok P1) as P2. destruct (irun c n1 r) as [n2 o2]. exact P2.
 Qed.
 
 (* a node at the moment unload() is requested: any endpoint tables, any tasks, any sockets *)
@@ -620,10 +658,11 @@ Proof. unfold fl_ok, flags0. simpl. discriminate. Qed.
 
 (* a complete unload(), with anything interleaved, leaves the overlay unloaded *)
 Lemma unload_establishes_l : forall c n l,
-  loaded c n -> complete_unload c (steps_of l) = true -> unloaded (fst (irun c n l)).
+  loaded c n -> Forall (fun i => item_routed i = true) l ->
+  complete_unload c (steps_of l) = true -> unloaded (fst (irun c n l)).
 Proof.
-  intros c n l L Hc.
-  pose proof (partial_irun c l (flags0 c) n (fl_ok0 c) (loaded_partial c n L)) as P.
+  intros c n l L Hr Hc.
+  pose proof (partial_irun c l (flags0 c) n Hr (fl_ok0 c) (loaded_partial c n L)) as P.
   unfold complete_unload in Hc. set (fl := fold_left flag_step (steps_of l) (flags0 c)) in *.
   rewrite !andb_true_iff in Hc. destruct Hc as [[[[H1 H2] H3] H4] H5].
   destruct P as [W [To [Tc Ts]] Hs Hcr Hk].
@@ -636,27 +675,29 @@ Qed.
 
 (* ... and from then on it is silent and keeps every socket closed, whatever happens *)
 Lemma unloaded_is_silent_l : forall c n l later,
-  loaded c n -> complete_unload c (steps_of l) = true ->
+  loaded c n -> Forall (fun i => item_routed i = true) (l ++ later) ->
+  complete_unload c (steps_of l) = true ->
   let n1 := fst (irun c n l) in
   Forall silent_out (snd (irun c n1 later))
   /\ Forall (fun s => s_open s = false) (n_socks (fst (irun c n1 later)))
   /\ unloaded (fst (irun c n1 later)).
 Proof.
-  intros c n l later L Hc. cbv zeta.
-  pose proof (unload_establishes_l c n l L Hc) as U.
-  destruct (unloaded_irun c later _ U) as [U' O']. split; [assumption|split; [|assumption]].
+  intros c n l later L Hr Hc. cbv zeta. apply Forall_app in Hr. destruct Hr as [Hr1 Hr2].
+  pose proof (unload_establishes_l c n l L Hr1 Hc) as U.
+  destruct (unloaded_irun c later _ Hr2 U) as [U' O']. split; [assumption|split; [|assumption]].
   eapply Forall_impl; [|exact (u_socks _ U')]. intros s [H _]. exact H.
 Qed.
 
 (* neither the overlay nor the crypto endpoint it installed stays registered *)
 Lemma crypto_listener_removed_l : forall c n l later o,
-  loaded c n -> complete_unload c (steps_of l) = true ->
+  loaded c n -> Forall (fun i => item_routed i = true) (l ++ later) ->
+  complete_unload c (steps_of l) = true ->
   let n2 := fst (irun c (fst (irun c n l)) later) in
   ~ In (n_me n2) (called (n_ep n2) o)
   /\ (forall cr, n_crypto n2 = Some cr -> ~ In cr (called (n_ep n2) o) /\ absent cr (inner (n_ep n2))).
 Proof.
-  intros c n l later o L Hc. cbv zeta.
-  destruct (unloaded_is_silent_l c n l later L Hc) as [_ [_ U]].
+  intros c n l later o L Hr Hc. cbv zeta.
+  destruct (unloaded_is_silent_l c n l later L Hr Hc) as [_ [_ U]].
   split.
   - apply called_absent. exact (u_self _ U).
   - intros cr Hcr. pose proof (u_crypto _ U) as A. unfold A_crypto in A. rewrite Hcr in A.
